@@ -67,10 +67,11 @@ def jobs(tier):
     J.append(conc("2,0,0,0", maxb=2, prog0=prog((K_ADD, 3)), prog1=prog((K_LOOKUP, 0), (K_WALKALL, 0)), **lz))
     J.append(conc("2,0,0,0", flags=3, hmap=1, count_commit_order=0, ninit=1, init_keys=0, prog0=prog((K_ADD, 1), (K_ADD, 2)),
                   prog1=prog((K_LOOKUP, 0), (K_WALKALL, 0))))
-    # partitioned resize with more helper threads than the default two CPUs give (4 CPUs: every level of 4+ buckets is split in four)
-    J.append(Job("lfht", "seq", "0,0,0,0", dict(len=3 if q else 4, keys=4, hmap=1, alpha_seq=1, nresize=12, min_partition_order=0),
+    # partitioned resize with more helper threads than the default two CPUs give (4 CPUs: every level of 4+ buckets is split in four);
+    # two operations only: every partitioned level creates four threads and vrt runs at most 16 per execution
+    J.append(Job("lfht", "seq", "0,0,0,0", dict(len=2, keys=4, hmap=1, alpha_seq=1, nresize=12, min_partition_order=0),
                  {"VRT_NCPUS": 4}, workers=8))
-    J.append(Job("lfht", "seq", "0,0,0,0", dict(len=2 if q else 3, keys=4, hmap=1, alpha_seq=1, nresize=12, min_partition_order=0, big=1),
+    J.append(Job("lfht", "seq", "0,0,0,0", dict(len=2, keys=4, hmap=1, alpha_seq=1, nresize=12, min_partition_order=0, big=1),
                  {"VRT_NCPUS": 3}, workers=8))
     # two adders that both request a lazy grow (both raise the resize target; the loser of the compare-and-swap must notice)
     J.append(conc("2,0,0,0", flags=1, hmap=4, init=1, ninit=3, init_keys=0x210, prog0=prog((K_ADD, 3)), prog1=prog((K_ADD, 3), (K_LOOKUP, 0))))
